@@ -37,7 +37,9 @@ CHECKS = {
         text='Every single failing position (plus pairs and random subsets) of a failing site upstream of or in the '
              'parallel stage is injected under sampled schedules; delivered prefix, omitted examples and the terminal '
              'exception (identity for thread backends) must equal the sequential reference with an independent '
-             'per-position catch; C05 cleanliness is checked on the same runs.',
+             'per-position catch; independently of that reference, an epoch in which an exception outside the '
+             'selected set was raised (by a stage, the mapped function, or iter() of a user-written stage) must not '
+             'end as exhausted; C05 cleanliness is checked on the same runs.',
         note='backend=False (serial debugging mode, no background work) and batch(drop_last=True) upstream are not '
              'generated; stub pools compare exceptions by type and arguments.'),
     'C07': dict(
